@@ -27,6 +27,7 @@ package stackitem
 //@ assumed
 //@ pure
 //@ ensures is(recv, *Interop) ==> result == recv.(*Interop).value
+//@ ensures is(recv, *ByteArray) && recv.(*ByteArray) != nil ==> is(result, []byte) && same(result.([]byte), *recv.(*ByteArray))   // the body of (*ByteArray).Value
 //@ ensures result == valueOf(recv)   // what an item holds is a function of the item (its elements for a compound one)
 
 //@ iface Item.Type
